@@ -34,7 +34,7 @@ CHECKS: dict[str, tuple[str, str, str, str, str]] = {
     "C02": (
         "exploration",
         "bounded-exhaustive program x input enumeration, differential against sys.monitoring LINE events",
-        "Every progen program up to size 3 (4849) plus 52 one-construct seeds is loaded through the real import "
+        "Every progen program up to size 3 (4849) plus 60 seeds (one construct each; one-line bodies; string methods that are referenced, not called) is loaded through the real import "
         "hook and every menu input is executed by the real TestCaseExecutor under LINE, BRANCH+LINE and "
         "BRANCH+LINE+CHECKED. For every execution, reported covered lines must equal the LINE events of the "
         "uninstrumented code restricted to existing_lines; executed lines must be coverable; registered lines must "
@@ -61,7 +61,7 @@ CHECKS: dict[str, tuple[str, str, str, str, str]] = {
     "C04": (
         "exploration",
         "bounded-exhaustive value-pair enumeration against CPython's own operators (differential)",
-        "Every ordered pair (plus the same-object pair) of a 244-value (quick) / 300-value (thorough) "
+        "Every ordered pair (plus the same-object pair) of a 248-value (quick) / 303-value (thorough) "
         "adversarial alphabet (ints beyond 2^53 and 1e308, NaN/inf/-0.0, complex, Decimal, Fraction, "
         "str, bytes, containers, one-shot iterators, 190 user classes from the power set of the "
         "rich-comparison methods x {bool, NotImplemented, raises}) is run through all 10 comparison "
@@ -149,7 +149,7 @@ CHECKS: dict[str, tuple[str, str, str, str, str]] = {
         "exploration",
         "bounded-exhaustive abstract-trace enumeration through real chromosomes and fitness functions",
         "Every abstract execution trace over 8 (quick) / 10 (thorough) real registries (hit counts 0/1/>=2 per "
-        "predicate, distances from {0, 0.5, 1, 7, inf} under the tracer invariant, every consistent code-object "
+        "predicate, distances from {0, 5e-17, 0.5, 1, 7, inf} under the tracer invariant, every consistent code-object "
         "subset, every covered/checked line subset) is evaluated by every fitness and coverage function class and "
         "every goal class, directly and through ComputationCache, alone, paired with every alphabet trace and in "
         "all alphabet triples merged by the real analyze_results: finite non-negative fitness, coverage in [0,1], "
@@ -362,7 +362,7 @@ CHECKS: dict[str, tuple[str, str, str, str, str]] = {
     "C27": (
         "exploration",
         "bounded-exhaustive generated modules x configurations against an AST-derived oracle",
-        "Every subset (quick: size <= 4 plus the full set; thorough: all 2^13) of a 13-feature module menu "
+        "Every subset (quick: size <= 4 plus the full set; thorough: all 2^14) of a 14-feature module menu "
         "(public/protected/private/name-mangled functions, imported function, re-exported class, class with "
         "public/protected/private/dunder/static/class methods, nested class, lambdas, Enum, subclass of an imported "
         "base, property, module-level constant) written as real packages is analysed by the real "
@@ -377,7 +377,7 @@ CHECKS: dict[str, tuple[str, str, str, str, str]] = {
     "C30": (
         "model_checking",
         "explicit-state sequences through one real executor + schedule exploration of abandoned threads",
-        "Leg 1: every sequence of <= 2 (quick) / <= 3 (thorough) test cases from a 17-call alphabet (print, raise, log, "
+        "Leg 1: every sequence of <= 2 (quick) / <= 3 (thorough) test cases from a 19-call alphabet (print, raise, log, "
         "SystemExit, close/replace stdout, os.close(1), disable logging / remove handlers, reseed / draw / create "
         "random generators, mutate module or class state, pure calls) runs through one real TestCaseExecutor; after "
         "every execution the process snapshot (streams, fds 0-2, logging level and root handlers, pynguin's RNG "
@@ -429,7 +429,7 @@ CHECKS: dict[str, tuple[str, str, str, str, str]] = {
     "C28": (
         "fault_enumeration",
         "bounded-exhaustive modules x mutator configurations against a differential AST oracle, abandonment at every generator step",
-        "For every generated module up to the statement bound (quick 850, thorough ~14.6k; the 37-statement menu "
+        "For every generated module up to the statement bound (quick 850, thorough ~14.6k; the 43-statement menu "
         "fires all 30 mutation operators) and 29 stdlib modules, and for every mutator configuration (plain, "
         "reorder, every cap with scripted sampling answers, 4 HOM strategies x order 1/2, via MutationController): at "
         "every generator step the shared original AST differs from its pristine dump only inside the reported "
@@ -479,6 +479,47 @@ CHECKS: dict[str, tuple[str, str, str, str, str]] = {
     ),
 }
 
+# Corrections and additions made while the checks were extended (kept apart from the table above so that the
+# original level texts stay readable): (old, new) pairs applied to the joined text, then sentences appended.
+TEXT_FIXES = {
+    "C05": [("16 events", "23 events"), ("(6 benign, 10 whose", "(6 benign, 17 whose")],
+    "C29": [("679 instances", "856 instances"), ("x 7 paths", "x 8 paths")],
+    "C34": [("in 8 iterable forms", "in 8 iterable forms plus 4 lazy views of the receiver itself")],
+}
+ADDENDA = {
+    "C03": "Executor leg: enumerated test cases run through the real TestCaseExecutor under BRANCH, BRANCH+CHECKED and "
+           "BRANCH+LINE+CHECKED while sys.monitoring PY_START records the code objects entered; every code object listed "
+           "by branch_less_code_objects must be reported executed exactly when it was entered.",
+    "C05": "Raising operands raise ValueError as well as BaseException-only exceptions (SystemExit, a custom one).",
+    "C06": "The accessors are also queried in two other orders (branching nodes first, reverse) on fresh CDGs.",
+    "C09": "Family D: 7 control-flow shapes for f x the same for g x {g called after / before f's structure}.",
+    "C10": "Conformance leg: the same oracle on real execution results of corpus populations (behind a replaying "
+           "executor), and every real trace must lie inside the abstract trace domain (else harness error).",
+    "C12": "Additional suite roots: two live suites after a crossover between them (x = x.cross_over(clone), re-evaluated).",
+    "C13": "Real leg: DYNAMOSA / MOSA / MIO on corpus modules numeric, raising and shifting (exception position moves "
+           "under mutation), every archived test re-executed after every iteration.",
+    "C16": "Corpus includes an Enum with methods, a class hierarchy and a module with several custom exceptions.",
+    "C17": "Plus cells with two budgets configured at once (each must be honoured).",
+    "C18": "Suites include all ordered pairs of tests with pairwise different called accessibles; corpus includes nested "
+           "classes, callable parameters and module-private exception classes.",
+    "C19": "Assertion-subset variants (all / bare sources only / dotted sources only) and tripled tests whose first copy "
+           "is unasserted; exception oracles are matched as pytest.raises / the xfail mark.",
+    "C22": "For the stateful corpus the population is every call sequence of <= 3 accessibles (all pairs of the short ones).",
+    "C24": "Corpus includes nested-class results, fields asserted through isinstance/len, type-name-only values, a "
+           "parameter named like a module function and callable parameters (lambdas).",
+    "C25": "Plus a restricted depth-3 family: unions with tuple/list members and tuples whose element is a union.",
+    "C26": "Requested types include a union whose first member is a parametrised container; 3-class hierarchies are also "
+           "analysed under a second package name (the member order of unions follows the string form of the members).",
+    "C30": "Leg 3: the exporter's statement watchdog (_exec_statement_guarded), expiring and in time, over a 5-statement "
+           "menu: process state after the call and after the abandoned thread has finished equals the state before.",
+    "C31": "Populations include post-processed variants (statements that bind nothing) and a corpus of equal values of "
+           "different types (False == 0 == 0.0).",
+    "C33": "Real-kill leg: the worker is killed once or twice (restarted worker dies again) at four phases.",
+    "C35": "Pools include hand-made near-miss float tests (branch distance of the outcome not taken is tiny) and lines "
+           "holding both a predicate and the first line of a branch-less code object.",
+}
+
+
 NOT_YET = "check not built yet in this session; see DESIGN.md section 5 for the planned harness"
 NOT_APPLICABLE: dict[str, str] = {}
 
@@ -489,6 +530,11 @@ def build() -> dict:
         if pid not in CHECKS:
             continue
         cat, tech, text, note, ref = CHECKS[pid]
+        for old, new in TEXT_FIXES.get(pid, ()):
+            assert old in text, (pid, old)
+            text = text.replace(old, new)
+        if pid in ADDENDA:
+            text = text + " " + ADDENDA[pid]
         checks.append({
             "property_id": pid,
             "quick_cmd": f"./check {pid} --tier quick",
